@@ -6,6 +6,8 @@ c  retry limit                              (CFG + bounded unrolling)
 d  step control: clamp keeps sign and bounds, default shrink 0.5, failing shrink_policy falls back
 e  predictions: natural adds step at the configured indices; secant r_last + tangent*|step|; tangent bookkeeping
 f  members are corrected orbits carrying 2*half_period of their own correction
+
+e (added)  one-parameter secant step: arc length |s0| for a 1-element step of either sign
 """
 from __future__ import annotations
 
